@@ -3,7 +3,7 @@
 id=$1; shift
 extra="$@"
 SRC=${SEEDSRC:-/tmp/seed_out}/$id
-WT=/tmp/wt_seed
+WT=${SEEDWT:-/tmp/wt_seed}
 export GOFLAGS=-mod=mod GOPROXY=off GOSUMDB=off GOTOOLCHAIN=local GOWORK=off
 head=$(git -C /repo rev-parse HEAD)
 if [ ! -d $WT ]; then git -C /repo worktree add -q --detach $WT HEAD || exit 2; fi
@@ -14,19 +14,19 @@ cmd=$(echo "$first" | sed -E 's/.*run: *(go test.*)$/\1/')
 echo "[$id] demo at $place ; cmd: $cmd"
 cp $SRC/demo_test.go $WT/$place
 cd $WT
-echo -n "[$id] demo WITHOUT change: "; if bash -c "$cmd" > /tmp/seed_demo_a.txt 2>&1; then echo PASS; else echo "FAIL (unexpected)"; tail -5 /tmp/seed_demo_a.txt; fi
-if ! git apply --check $SRC/patch.diff 2>/tmp/seed_apply.txt; then echo "[$id] PATCH DOES NOT APPLY"; cat /tmp/seed_apply.txt; exit 3; fi
+echo -n "[$id] demo WITHOUT change: "; if bash -c "$cmd" > /tmp/seedtmp_${id}_a.txt 2>&1; then echo PASS; else echo "FAIL (unexpected)"; tail -5 /tmp/seedtmp_${id}_a.txt; fi
+if ! git apply --check $SRC/patch.diff 2>/tmp/seedtmp_${id}_apply.txt; then echo "[$id] PATCH DOES NOT APPLY"; cat /tmp/seedtmp_${id}_apply.txt; exit 3; fi
 git apply $SRC/patch.diff
-echo -n "[$id] build: "; if go build ./... > /tmp/seed_build.txt 2>&1; then echo ok; else echo FAIL; head -5 /tmp/seed_build.txt; fi
-echo -n "[$id] demo WITH change: "; if bash -c "$cmd" > /tmp/seed_demo_b.txt 2>&1; then echo "PASS (unexpected)"; else echo "FAIL (expected)"; grep -E "^\s+.*_test.go|panic" /tmp/seed_demo_b.txt | head -3; fi
+echo -n "[$id] build: "; if go build ./... > /tmp/seedtmp_${id}_build.txt 2>&1; then echo ok; else echo FAIL; head -5 /tmp/seedtmp_${id}_build.txt; fi
+echo -n "[$id] demo WITH change: "; if bash -c "$cmd" > /tmp/seedtmp_${id}_b.txt 2>&1; then echo "PASS (unexpected)"; else echo "FAIL (expected)"; grep -E "^\s+.*_test.go|panic" /tmp/seedtmp_${id}_b.txt | head -3; fi
 rm -f $WT/$place
 pkgs=$(python3 -c "import json;print(' '.join('./'+p.replace('github.com/Fantom-foundation/lachesis-base/','')+'/...' for p in json.load(open('$SRC/meta.json')).get('touched_packages',[])))")
-echo -n "[$id] existing tests ($pkgs): "; if go test -vet=off -count=1 $pkgs > /tmp/seed_tests.txt 2>&1; then echo pass; else echo FAIL; tail -5 /tmp/seed_tests.txt; fi
+echo -n "[$id] existing tests ($pkgs): "; if go test -vet=off -count=1 $pkgs > /tmp/seedtmp_${id}_tests.txt 2>&1; then echo pass; else echo FAIL; tail -5 /tmp/seedtmp_${id}_tests.txt; fi
 cd /verif
 prop=$(python3 -c "import json;print(json.load(open('$SRC/meta.json'))['property'])")
 for p in $prop $extra; do
   out=/tmp/seed_chk_$p.txt; [ "$p" = "$prop" ] && out=/tmp/seed_chk_$id.txt
-  ./bin/lachk -property $p -tier quick -repo $WT -verif /tmp/seed_verif > $out 2>&1; rc=$?
+  ./bin/lachk -property $p -tier quick -repo $WT -verif /tmp/seed_verif_${id} > $out 2>&1; rc=$?
   echo "[$id] check $p exit=$rc"; grep -E "^(VIOLATED|UNDECIDED|internal)" $out | cut -c1-330
 done
 git -C $WT checkout -q -- . ; git -C $WT clean -fdq
